@@ -1,5 +1,6 @@
 import LassoModel.Markers
 import LassoModel.Extracted
+import LassoProofs.Lemmas.Config
 /-
   C19 — thread-safety markers are no stronger than the key and hasher types allow.
 
@@ -42,5 +43,12 @@ theorem impl_table :
        (.rodeo, .send, [(.K, .send), (.S, .send)]),
        (.threadedRodeo, .send, [(.K, .send), (.S, .send)]), (.threadedRodeo, .sync, [(.K, .sync), (.S, .sync)])] := by
   decide
+
+/-- The code this file's theorems are about is the same under every feature configuration: the regenerated
+census of conditional compilation contains import blocks, whole serde impls, optional-dependency impls and
+module declarations only, and no gate inside any function body (`Lemmas/Config.lean`). -/
+theorem same_code_under_every_feature_configuration :
+    (Extracted.cfgGates.all fun g => g.kind != .other) = true ∧ Extracted.bodyGates.isEmpty = true :=
+  Lasso.one_code_base_for_all_configurations
 
 end Lasso.C19
